@@ -184,3 +184,28 @@ func PinnedPointerDrop(name string) *Case {
 	c.Feature("usezero", "true")
 	return c
 }
+
+// PinnedMapValueAddr: map values of an unnamed type that are passed through (skipCopySameType) and wrapped into a
+// pointer: every entry needs its own pointee (the scratch module is built with go 1.21, where the range variable is
+// shared by all iterations).
+func PinnedMapValueAddr(name string) *Case {
+	c := &Case{Name: name, Root: "vcase/" + name}
+	conv := &Package{Path: "conv", Name: "conv"}
+	c.Pkgs = []*Package{conv}
+	row := func() *Type { return Struct(F("X", Basic("int")), F("L", Slice(Basic("string")))) }
+	cv := simpleConv(conv, "Converter", "struct", []string{"skipCopySameType"},
+		method1("M0", Map(Basic("string"), Slice(Basic("int"))), Map(Basic("string"), Ptr(Slice(Basic("int"))))),
+		method1("M1", Map(Basic("string"), row()), Map(Basic("string"), Ptr(row()))),
+		method1("M2", Map(Basic("int"), Map(Basic("string"), Basic("int"))), Map(Basic("int"), Ptr(Ptr(Map(Basic("string"), Basic("int")))))),
+		method1("M3", Struct(F("M", Map(Basic("string"), Array(2, Basic("int"))))), Struct(F("M", Map(Basic("string"), Ptr(Array(2, Basic("int"))))))))
+	for _, m := range cv.Methods {
+		m.Spec.Flags.SkipCopy = true
+	}
+	cv.Spec = &vref.Spec{Seed: 1, NValues: 16, Monitors: []string{"value", "intact"}, Conv: vref.Flags{SkipCopy: true}}
+	c.Convs = []*Converter{cv}
+	c.Patterns = []string{"./conv"}
+	c.Feature("tag", "pinned")
+	c.Feature("shape", "mapvalue-addr")
+	c.Feature("skipcopy", "true")
+	return c
+}
